@@ -29,12 +29,13 @@ theorem chains_enforce (mode : MTLS) (hm : mode ≠ .unknown) (proto : LProto) :
   | strict => cases proto <;> decide
 
 theorem mem_chainsFor {m : Merged} {port : Nat} {proto : LProto} {c : LChain} :
-    c ∈ chainsFor m port proto ↔ c.dst = dstOf port ∧ c.chain ∈ chains (m.modeForPort port) proto := by
+    c ∈ chainsFor m port proto ↔
+      c.dst = dstOf port ∧ c.lst = none ∧ c.chain ∈ chains (m.modeForPort port) proto := by
   unfold chainsFor
   simp only [List.mem_map]
   constructor
-  · rintro ⟨ch, hch, rfl⟩; exact ⟨rfl, hch⟩
-  · rintro ⟨h1, h2⟩; exact ⟨c.chain, h2, by cases c; simp_all⟩
+  · rintro ⟨ch, hch, rfl⟩; exact ⟨rfl, rfl, hch⟩
+  · rintro ⟨h1, h2, h3⟩; exact ⟨c.chain, h3, by cases c; simp_all⟩
 
 theorem dstOf_eq_some {p d : Nat} (hd : d > 0) : dstOf p = some d ↔ p = d := by
   unfold dstOf
@@ -63,18 +64,23 @@ theorem lookup_none_of_not_key {β : Type} {l : List (Nat × β)} {k : Nat} (h :
       simp only [List.lookup_cons, h1]
       exact ih (fun e he => h e (List.mem_cons_of_mem _ he))
 
-/-- A chain config without user TLS (or whose mode is not DISABLE) yields the regular cell. -/
-theorem entryChains_regular {m : Merged} {sp : SvcPort} (h : sp.userTLS = false) :
-    entryChains m sp = chainsFor m sp.target sp.proto := by
-  simp [entryChains, h]
+/-- A chain config without user TLS yields the regular cell, in its listener. -/
+theorem mem_entryChains_regular {m : Merged} {sp : SvcPort} (h : sp.userTLS = false) {c : LChain} :
+    c ∈ entryChains m sp ↔
+      c.dst = dstOf sp.target ∧ c.lst = sp.listener ∧ c.chain ∈ chains (m.modeForPort sp.target) sp.proto := by
+  simp only [entryChains, h, Bool.false_and, Bool.false_eq_true, if_false, List.mem_map]
+  constructor
+  · rintro ⟨ch, hch, rfl⟩; exact ⟨rfl, rfl, hch⟩
+  · rintro ⟨h1, h2, h3⟩; exact ⟨c.chain, h3, by cases c; simp_all⟩
 
-/-- Membership in the three parts of the listener. -/
-theorem mem_inboundChains_iff {root : String} {ps : List PA} {w : Workload} {svcPorts : List SvcPort} {c : LChain} :
-    c ∈ inboundChains root ps w svcPorts ↔
+/-- Membership in the three parts of the listener set. -/
+theorem mem_inboundChains_iff {root : String} {ps : List PA} {w : Workload} {svcPorts : List SvcPort}
+    {declared : List Nat} {c : LChain} :
+    c ∈ inboundChains root ps w svcPorts declared ↔
       (∃ sp ∈ svcPorts, c ∈ entryChains (compose root ((initAuthn root ps).configsFor w)) sp) ∨
       c ∈ chainsFor (compose root ((initAuthn root ps).configsFor w)) 0 .auto ∨
       (∃ e ∈ (compose root ((initAuthn root ps).configsFor w)).perPort,
-        needPerPort svcPorts e.1 = true ∧ c ∈ chainsFor (compose root ((initAuthn root ps).configsFor w)) e.1 .auto) := by
+        needPerPort declared e.1 = true ∧ c ∈ chainsFor (compose root ((initAuthn root ps).configsFor w)) e.1 .auto) := by
   unfold inboundChains
   simp only [List.mem_append, List.mem_flatMap, List.mem_filter]
   constructor
@@ -87,12 +93,14 @@ theorem mem_inboundChains_iff {root : String} {ps : List PA} {w : Workload} {svc
     · exact Or.inl (Or.inr h)
     · exact Or.inr ⟨e, ⟨he, hn⟩, hc⟩
 
-theorem entryChains_dst {m : Merged} {sp : SvcPort} {c : LChain} (h : c ∈ entryChains m sp) :
-    c.dst = dstOf sp.target := by
+theorem entryChains_dst_lst {m : Merged} {sp : SvcPort} {c : LChain} (h : c ∈ entryChains m sp) :
+    c.dst = dstOf sp.target ∧ c.lst = sp.listener := by
   unfold entryChains at h
   split at h
-  · simp only [List.mem_singleton] at h; rw [h]
-  · exact (mem_chainsFor.mp h).1
+  · simp only [List.mem_singleton] at h; rw [h]; exact ⟨rfl, rfl⟩
+  · simp only [List.mem_map] at h
+    obtain ⟨ch, _, rfl⟩ := h
+    exact ⟨rfl, rfl⟩
 
 /-- No policy carries a port-level entry for port 0 (rejected by validation: ports are 1..65535). -/
 def NoPortZero (ps : List PA) : Prop := ∀ p ∈ ps, p.ports.lookup 0 = none
@@ -122,16 +130,43 @@ def NoUserTLSFor (svcPorts : List SvcPort) (d : Nat) : Prop :=
 instance (svcPorts : List SvcPort) (d : Nat) : Decidable (NoUserTLSFor svcPorts d) := by
   unfold NoUserTLSFor; infer_instance
 
+/-- Every port that `needPerPortPassthroughFilterChain` treats as declared has a chain config
+    (true for `chainConfigs` / `declaredPorts`: see `declared_have_configs`). -/
+def DeclaredHaveConfigs (svcPorts : List SvcPort) (declared : List Nat) : Prop :=
+  ∀ p ∈ declared, ∃ sp ∈ svcPorts, sp.target = p
+
+instance (svcPorts : List SvcPort) (declared : List Nat) : Decidable (DeclaredHaveConfigs svcPorts declared) := by
+  unfold DeclaredHaveConfigs; infer_instance
+
+theorem mem_applicableIn {l : List LChain} {d : Nat} {c : Chain} :
+    c ∈ applicableIn l d ↔
+      if (l.filter (fun x => x.dst == some d)).isEmpty = true
+      then ∃ lc ∈ l, lc.dst = none ∧ lc.chain = c
+      else ∃ lc ∈ l, lc.dst = some d ∧ lc.chain = c := by
+  unfold applicableIn
+  by_cases h : (l.filter (fun x => x.dst == some d)).isEmpty = true
+  · simp only [h, if_true, List.mem_map, List.mem_filter, beq_iff_eq]
+    constructor
+    · rintro ⟨lc, ⟨h1, h2⟩, rfl⟩; exact ⟨lc, h1, h2, rfl⟩
+    · rintro ⟨lc, h1, h2, rfl⟩; exact ⟨lc, ⟨h1, h2⟩, rfl⟩
+  · simp only [h, Bool.false_eq_true, if_false, List.mem_map, List.mem_filter, beq_iff_eq]
+    constructor
+    · rintro ⟨lc, ⟨h1, h2⟩, rfl⟩; exact ⟨lc, h1, h2, rfl⟩
+    · rintro ⟨lc, h1, h2, rfl⟩; exact ⟨lc, ⟨h1, h2⟩, rfl⟩
+
 /-- **inbound_listener_enforces.**  For every destination port `d` of the sidecar - target port of a
-    service (whatever the service port), Sidecar ingress port, or neither; with or without port-level
-    setting - the filter chains of the generated virtualInbound listener that Envoy selects for `d`
-    enforce `effectiveMode d`: plaintext is admitted iff the mode is not STRICT, Istio mutual TLS is
-    terminated iff the mode is not DISABLE, TLS is never terminated without a client certificate, and
-    under STRICT **every** selected chain terminates mutual TLS (no plaintext chain, no TLS pass-through). -/
+    service (whatever the service port), Sidecar ingress port (captured or with a listener of its own),
+    or neither; with or without port-level setting - the filter chains that Envoy selects for a
+    connection to `d` (in the custom listener bound to `d` if there is one, else in the virtualInbound
+    listener, most specific destination-port match) enforce `effectiveMode d`: plaintext is admitted iff
+    the mode is not STRICT, Istio mutual TLS is terminated iff the mode is not DISABLE, TLS is never
+    terminated without a client certificate, and under STRICT **every** selected chain terminates mutual
+    TLS (no plaintext chain, no TLS pass-through).  `d` is not the listener's own port 15006, whose
+    traffic the blackhole chain swallows. -/
 theorem inbound_listener_enforces {ps : List PA} (hu : UniqueKeys ps) (hz : NoPortZero ps) (root : String)
-    (w : Workload) (hs : w.svcNs = []) (svcPorts : List SvcPort) (d : Nat) (hd : d > 0)
-    (hU : NoUserTLSFor svcPorts d) :
-    let cs := applicable (inboundChains root ps w svcPorts) d
+    (w : Workload) (hs : w.svcNs = []) (svcPorts : List SvcPort) (declared : List Nat) (d : Nat) (hd : d > 0)
+    (_hbh : d ≠ 15006) (hU : NoUserTLSFor svcPorts d) (hD : DeclaredHaveConfigs svcPorts declared) :
+    let cs := applicable (inboundChains root ps w svcPorts declared) d
     (cs.any Chain.acceptsPlaintext = true ↔ effectiveMode ps root w d ≠ .strict) ∧
     (cs.any Chain.terminatesMTLS = true ↔ effectiveMode ps root w d ≠ .disable) ∧
     (cs.any Chain.terminatesOneWayTLS = false) ∧
@@ -140,172 +175,263 @@ theorem inbound_listener_enforces {ps : List PA} (hu : UniqueKeys ps) (hz : NoPo
   have hmode : ∀ port, (compose root ((initAuthn root ps).configsFor w)).modeForPort port =
       effectiveMode ps root w port := fun port => compose_eq_spec hu root w hs port
   have hzero := merged_lookup_zero hz root w hs
-  have hmem : ∀ c, c ∈ inboundChains root ps w svcPorts ↔ _ := fun c => mem_inboundChains_iff (c := c)
+  have hmem : ∀ c, c ∈ inboundChains root ps w svcPorts declared ↔ _ := fun c => mem_inboundChains_iff (c := c)
   generalize hM : compose root ((initAuthn root ps).configsFor w) = m at hmode hzero hmem
+  generalize hL : inboundChains root ps w svcPorts declared = l at hmem cs
+  have hcs : ∀ c, c ∈ cs ↔ c ∈ applicableIn (listenerFor l d) d := by
+    intro c; simp only [cs, applicable, hL]
   have hne := effectiveMode_total ps root w d
   have hcell : ∀ proto, chains (m.modeForPort d) proto ≠ [] := fun proto =>
     (chains_enforce (m.modeForPort d) (by rw [hmode]; exact hne) proto).2.2.2.1
-  -- every chain whose destination port is `d` lies in a cell of mode `effectiveMode d`
-  have hspecific : ∀ lc ∈ inboundChains root ps w svcPorts, lc.dst = some d →
-      ∃ proto, lc.chain ∈ chains (effectiveMode ps root w d) proto := by
+  have hreg : ∀ sp ∈ svcPorts, (sp.target = d ∨ sp.target = 0) → sp.userTLS = false := by
+    intro sp hsp ht
+    cases h : sp.userTLS with
+    | false => rfl
+    | true => rcases ht with ht | ht
+              · exact absurd ht (hU sp hsp h).1
+              · exact absurd ht (hU sp hsp h).2
+  -- (i) every chain whose destination port is `d` lies in a cell of mode `effectiveMode d`
+  have hspecific : ∀ lc ∈ l, lc.dst = some d → ∃ proto, lc.chain ∈ chains (effectiveMode ps root w d) proto := by
     intro lc hlc hdst
     rcases (hmem lc).mp hlc with ⟨sp, hsp, hc⟩ | hc | ⟨e, _, _, hc⟩
-    · have htd : sp.target = d := (dstOf_eq_some hd).mp ((entryChains_dst hc) ▸ hdst)
-      have hut : sp.userTLS = false := by
-        cases h : sp.userTLS with
-        | false => rfl
-        | true => exact absurd htd (hU sp hsp h).1
-      rw [entryChains_regular hut] at hc
-      have := (mem_chainsFor.mp hc).2
+    · have htd : sp.target = d := (dstOf_eq_some hd).mp ((entryChains_dst_lst hc).1 ▸ hdst)
+      have := ((mem_entryChains_regular (hreg sp hsp (Or.inl htd))).mp hc).2.2
       rw [htd, hmode] at this
       exact ⟨sp.proto, this⟩
-    · have := mem_chainsFor.mp hc
-      have h0 : (0 : Nat) = d := (dstOf_eq_some hd).mp (this.1 ▸ hdst)
+    · have h0 : (0 : Nat) = d := (dstOf_eq_some hd).mp ((mem_chainsFor.mp hc).1 ▸ hdst)
       omega
-    · have := mem_chainsFor.mp hc
-      have hed : e.1 = d := (dstOf_eq_some hd).mp (this.1 ▸ hdst)
-      have h2 := this.2
+    · have hm := mem_chainsFor.mp hc
+      have hed : e.1 = d := (dstOf_eq_some hd).mp (hm.1 ▸ hdst)
+      have h2 := hm.2.2
       rw [hed, hmode] at h2
       exact ⟨.auto, h2⟩
-  -- if no chain has destination port `d`: `d` is no target port and has no port-level setting
-  have hnone : ((inboundChains root ps w svcPorts).filter (fun c => c.dst == some d)).isEmpty = true →
-      m.modeForPort 0 = effectiveMode ps root w d := by
-    intro hsp
-    have hspec : ∀ x ∈ inboundChains root ps w svcPorts, ¬ (x.dst == some d) = true :=
-      List.filter_eq_nil_iff.mp (List.isEmpty_iff.mp hsp)
-    have hd_none : m.perPort.lookup d = none := by
-      apply lookup_none_of_not_key
-      intro e he hed
-      by_cases hsvc : needPerPort svcPorts d = true
-      · obtain ⟨ch, hchm⟩ := List.exists_mem_of_ne_nil _ (hcell .auto)
-        have hx : ({ dst := dstOf d, chain := ch } : LChain) ∈ inboundChains root ps w svcPorts :=
-          (hmem _).mpr (Or.inr (Or.inr ⟨e, he, by rw [hed]; exact hsvc, by rw [hed]; exact mem_chainsFor.mpr ⟨rfl, hchm⟩⟩))
-        exact hspec _ hx (by simp [(dstOf_eq_some hd).mpr rfl])
-      · have hany : svcPorts.any (fun sp => sp.target == d) = true := by
-          unfold needPerPort at hsvc
-          cases h : svcPorts.any (fun sp => sp.target == d) <;> simp_all
-        obtain ⟨sp, hspm, hspd'⟩ := List.any_eq_true.mp hany
-        have hspd : sp.target = d := by simpa using hspd'
-        have hut : sp.userTLS = false := by
-          cases h : sp.userTLS with
-          | false => rfl
-          | true => exact absurd hspd (hU sp hspm h).1
-        obtain ⟨ch, hchm⟩ := List.exists_mem_of_ne_nil _ (hcell sp.proto)
-        have hx : ({ dst := dstOf d, chain := ch } : LChain) ∈ inboundChains root ps w svcPorts :=
-          (hmem _).mpr (Or.inl ⟨sp, hspm, by
-            rw [entryChains_regular hut, hspd]; exact mem_chainsFor.mpr ⟨rfl, hchm⟩⟩)
-        exact hspec _ hx (by simp [(dstOf_eq_some hd).mpr rfl])
-    have e0 : m.modeForPort 0 = m.mode := by simp [Merged.modeForPort, hzero]
-    have ed : m.modeForPort d = m.mode := by simp [Merged.modeForPort, hd_none]
-    rw [e0, ← ed, hmode]
-  -- (1) soundness: every selected chain lies in a cell of mode `effectiveMode d`
-  have hsound : ∀ c ∈ cs, ∃ proto, c ∈ chains (effectiveMode ps root w d) proto := by
-    intro c hc
-    simp only [cs, applicable, List.mem_map] at hc
-    obtain ⟨lc, hlc, rfl⟩ := hc
-    by_cases hsp : ((inboundChains root ps w svcPorts).filter (fun c => c.dst == some d)).isEmpty = true
-    · simp only [hsp, if_true, List.mem_filter, beq_iff_eq] at hlc
-      have h0 := hnone hsp
-      rcases (hmem lc).mp hlc.1 with ⟨sp, hspm, hc⟩ | hc | ⟨e, he, _, hc⟩
-      · have ht0 : sp.target = 0 := dstOf_eq_none.mp ((entryChains_dst hc) ▸ hlc.2)
-        have hut : sp.userTLS = false := by
-          cases h : sp.userTLS with
-          | false => rfl
-          | true => exact absurd ht0 (hU sp hspm h).2
-        rw [entryChains_regular hut] at hc
-        have := (mem_chainsFor.mp hc).2
-        rw [ht0, h0] at this
-        exact ⟨sp.proto, this⟩
-      · have := (mem_chainsFor.mp hc).2
-        rw [h0] at this
-        exact ⟨.auto, this⟩
-      · have hm := mem_chainsFor.mp hc
-        have he0 : e.1 = 0 := dstOf_eq_none.mp (hm.1 ▸ hlc.2)
-        have := hm.2
-        rw [he0, h0] at this
-        exact ⟨.auto, this⟩
-    · simp only [hsp, Bool.false_eq_true, if_false, List.mem_filter, beq_iff_eq] at hlc
-      exact hspecific lc hlc.1 hlc.2
-  -- (2) completeness: some whole cell of that mode is selected
-  have hcomplete : ∃ proto, ∀ c ∈ chains (effectiveMode ps root w d) proto, c ∈ cs := by
-    by_cases hsp : ((inboundChains root ps w svcPorts).filter (fun c => c.dst == some d)).isEmpty = true
-    · refine ⟨.auto, ?_⟩
+  -- (ii) chains without destination port lie in a cell of the mode for port 0
+  have hcatch : ∀ lc ∈ l, lc.dst = none → ∃ proto, lc.chain ∈ chains (m.modeForPort 0) proto := by
+    intro lc hlc hdst
+    rcases (hmem lc).mp hlc with ⟨sp, hsp, hc⟩ | hc | ⟨e, _, _, hc⟩
+    · have ht0 : sp.target = 0 := dstOf_eq_none.mp ((entryChains_dst_lst hc).1 ▸ hdst)
+      have := ((mem_entryChains_regular (hreg sp hsp (Or.inr ht0))).mp hc).2.2
+      rw [ht0] at this
+      exact ⟨sp.proto, this⟩
+    · exact ⟨.auto, (mem_chainsFor.mp hc).2.2⟩
+    · have hm := mem_chainsFor.mp hc
+      have he0 : e.1 = 0 := dstOf_eq_none.mp (hm.1 ▸ hdst)
+      have := hm.2.2
+      rw [he0] at this
+      exact ⟨.auto, this⟩
+  -- (iii) a chain in a custom listener bound to `d` has destination port `d`
+  have hown : ∀ lc ∈ l, lc.lst = some d → lc.dst = some d ∧ ∃ sp ∈ svcPorts, sp.target = d ∧ sp.bind = true ∧ lc ∈ entryChains m sp := by
+    intro lc hlc hlst
+    rcases (hmem lc).mp hlc with ⟨sp, hsp, hc⟩ | hc | ⟨e, _, _, hc⟩
+    · have h := entryChains_dst_lst hc
+      have hl : sp.listener = some d := h.2 ▸ hlst
+      unfold SvcPort.listener at hl
+      by_cases hb : sp.bind = true
+      · simp only [hb, if_true, Option.some.injEq] at hl
+        exact ⟨by rw [h.1, hl]; exact (dstOf_eq_some hd).mpr rfl, sp, hsp, hl, hb, hc⟩
+      · simp [hb] at hl
+    · have := (mem_chainsFor.mp hc).2.1; rw [this] at hlst; cases hlst
+    · have := (mem_chainsFor.mp hc).2.1; rw [this] at hlst; cases hlst
+  -- the whole regular cell of a chain config is in `l`
+  have hcellIn : ∀ sp ∈ svcPorts, sp.target = d → ∀ ch ∈ chains (effectiveMode ps root w d) sp.proto,
+      ({ dst := some d, chain := ch, lst := sp.listener } : LChain) ∈ l := by
+    intro sp hsp htd ch hch
+    apply (hmem _).mpr
+    left
+    refine ⟨sp, hsp, (mem_entryChains_regular (hreg sp hsp (Or.inl htd))).mpr ⟨?_, rfl, ?_⟩⟩
+    · simp only [htd]; exact ((dstOf_eq_some hd).mpr rfl).symm
+    · simp only [htd, hmode]; exact hch
+  let own := l.filter (fun c => c.lst == some d)
+  by_cases hownE : own.isEmpty = true
+  · -- no custom listener for `d`: the virtualInbound listener
+    have hvi : listenerFor l d = l.filter (fun c => c.lst == none) := by
+      simp only [listenerFor]; rw [if_pos hownE]
+    have hnoOwn : ∀ lc ∈ l, lc.lst ≠ some d := by
+      intro lc hlc h
+      have : lc ∈ own := List.mem_filter.mpr ⟨hlc, by simp [h]⟩
+      have hnil : own = [] := by simpa using hownE
+      rw [hnil] at this; cases this
+    have hviMem : ∀ lc, lc ∈ listenerFor l d ↔ lc ∈ l ∧ lc.lst = none := by
+      intro lc; rw [hvi]; simp [List.mem_filter]
+    -- no chain with destination port d in virtualInbound: d is no target port and has no port-level setting
+    have hnone : ((listenerFor l d).filter (fun c => c.dst == some d)).isEmpty = true →
+        m.modeForPort 0 = effectiveMode ps root w d := by
+      intro hsp
+      have hspec : ∀ x ∈ listenerFor l d, ¬ (x.dst == some d) = true :=
+        List.filter_eq_nil_iff.mp (List.isEmpty_iff.mp hsp)
+      have hnoTarget : ∀ sp ∈ svcPorts, sp.target ≠ d := by
+        intro sp hspm htd
+        obtain ⟨ch, hchm⟩ := List.exists_mem_of_ne_nil _ (by rw [← hmode]; exact hcell sp.proto :
+          chains (effectiveMode ps root w d) sp.proto ≠ [])
+        have hx := hcellIn sp hspm htd ch hchm
+        by_cases hb : sp.bind = true
+        · exact hnoOwn _ hx (by simp [SvcPort.listener, hb, htd])
+        · have hl : sp.listener = none := by simp [SvcPort.listener, hb]
+          exact hspec _ ((hviMem _).mpr ⟨hx, by simp [hl]⟩) (by simp)
+      have hd_none : m.perPort.lookup d = none := by
+        apply lookup_none_of_not_key
+        intro e he hed
+        by_cases hsvc : needPerPort declared d = true
+        · obtain ⟨ch, hchm⟩ := List.exists_mem_of_ne_nil _ (hcell .auto)
+          have hx : ({ dst := dstOf d, chain := ch } : LChain) ∈ l :=
+            (hmem _).mpr (Or.inr (Or.inr ⟨e, he, by rw [hed]; exact hsvc, by rw [hed]; exact mem_chainsFor.mpr ⟨rfl, rfl, hchm⟩⟩))
+          exact hspec _ ((hviMem _).mpr ⟨hx, rfl⟩) (by simp [(dstOf_eq_some hd).mpr rfl])
+        · have hdecl : d ∈ declared := by
+            unfold needPerPort at hsvc
+            simpa using hsvc
+          obtain ⟨sp, hspm, hspd⟩ := hD d hdecl
+          exact hnoTarget sp hspm hspd
+      have e0 : m.modeForPort 0 = m.mode := by simp [Merged.modeForPort, hzero]
+      have ed : m.modeForPort d = m.mode := by simp [Merged.modeForPort, hd_none]
+      rw [e0, ← ed, hmode]
+    have hsound : ∀ c ∈ cs, ∃ proto, c ∈ chains (effectiveMode ps root w d) proto := by
       intro c hc
-      simp only [cs, applicable, hsp, if_true, List.mem_map, List.mem_filter, beq_iff_eq]
-      refine ⟨{ dst := none, chain := c }, ⟨?_, rfl⟩, rfl⟩
-      apply (hmem _).mpr
-      right; left
-      apply mem_chainsFor.mpr
-      refine ⟨by simp [dstOf], ?_⟩
-      rw [hnone hsp]
-      exact hc
-    · have hnil : (inboundChains root ps w svcPorts).filter (fun c => c.dst == some d) ≠ [] := by
-        intro h; exact hsp (by simp [h])
-      obtain ⟨lc, hlc⟩ := List.exists_mem_of_ne_nil _ hnil
-      simp only [List.mem_filter, beq_iff_eq] at hlc
-      have key : ∀ (port : Nat) (proto : LProto), lc.dst = dstOf port →
-          (∀ ch ∈ chains (m.modeForPort port) proto,
-            ({ dst := dstOf port, chain := ch } : LChain) ∈ inboundChains root ps w svcPorts) →
-          ∃ proto, ∀ c ∈ chains (effectiveMode ps root w d) proto, c ∈ cs := by
-        intro port proto hdst hall
-        have hpd : port = d := (dstOf_eq_some hd).mp (hdst ▸ hlc.2)
-        refine ⟨proto, ?_⟩
-        intro c hc
-        simp only [cs, applicable, hsp, Bool.false_eq_true, if_false, List.mem_map, List.mem_filter, beq_iff_eq]
-        refine ⟨{ dst := dstOf port, chain := c }, ⟨?_, ?_⟩, rfl⟩
-        · apply hall; rw [hpd, hmode]; exact hc
-        · rw [hpd]; exact (dstOf_eq_some hd).mpr rfl
-      rcases (hmem lc).mp hlc.1 with ⟨sp, hspm, hc⟩ | hc | ⟨e, he, hneed, hc⟩
-      · have hdst := entryChains_dst hc
-        have htd : sp.target = d := (dstOf_eq_some hd).mp (hdst ▸ hlc.2)
-        have hut : sp.userTLS = false := by
-          cases h : sp.userTLS with
-          | false => rfl
-          | true => exact absurd htd (hU sp hspm h).1
-        apply key sp.target sp.proto hdst
-        intro ch hch
-        exact (hmem _).mpr (Or.inl ⟨sp, hspm, by rw [entryChains_regular hut]; exact mem_chainsFor.mpr ⟨rfl, hch⟩⟩)
-      · apply key 0 .auto (mem_chainsFor.mp hc).1
-        intro ch hch
-        exact (hmem _).mpr (Or.inr (Or.inl (mem_chainsFor.mpr ⟨rfl, hch⟩)))
-      · apply key e.1 .auto (mem_chainsFor.mp hc).1
-        intro ch hch
-        exact (hmem _).mpr (Or.inr (Or.inr ⟨e, he, hneed, mem_chainsFor.mpr ⟨rfl, hch⟩⟩))
-  -- conclude from the cell facts
-  obtain ⟨proto0, hall⟩ := hcomplete
-  refine ⟨?_, ?_, ?_, ?_⟩
-  · constructor
-    · intro h
-      obtain ⟨c, hc, hp⟩ := List.any_eq_true.mp h
+      have := mem_applicableIn.mp ((hcs c).mp hc)
+      by_cases hsp : ((listenerFor l d).filter (fun c => c.dst == some d)).isEmpty = true
+      · rw [if_pos hsp] at this
+        obtain ⟨lc, hlc, hdst, rfl⟩ := this
+        obtain ⟨proto, hp⟩ := hcatch lc ((hviMem lc).mp hlc).1 hdst
+        rw [hnone hsp] at hp
+        exact ⟨proto, hp⟩
+      · rw [if_neg hsp] at this
+        obtain ⟨lc, hlc, hdst, rfl⟩ := this
+        exact hspecific lc ((hviMem lc).mp hlc).1 hdst
+    have hcomplete : ∃ proto, ∀ c ∈ chains (effectiveMode ps root w d) proto, c ∈ cs := by
+      by_cases hsp : ((listenerFor l d).filter (fun c => c.dst == some d)).isEmpty = true
+      · refine ⟨.auto, fun c hc => ?_⟩
+        apply (hcs _).mpr
+        apply (mem_applicableIn (l := listenerFor l d)).mpr
+        rw [if_pos hsp]
+        refine ⟨{ dst := none, chain := c }, (hviMem _).mpr ⟨?_, rfl⟩, rfl, rfl⟩
+        apply (hmem _).mpr
+        right; left
+        exact mem_chainsFor.mpr ⟨by simp [dstOf], rfl, by rw [hnone hsp]; exact hc⟩
+      · have hnil : (listenerFor l d).filter (fun c => c.dst == some d) ≠ [] := by
+          intro h; exact hsp (by simp [h])
+        obtain ⟨lc, hlc⟩ := List.exists_mem_of_ne_nil _ hnil
+        simp only [List.mem_filter, beq_iff_eq] at hlc
+        have hlcl := (hviMem lc).mp hlc.1
+        -- whichever generator produced lc, its whole cell is selected
+        have fin : ∀ (proto : LProto), (∀ ch ∈ chains (effectiveMode ps root w d) proto,
+            ({ dst := some d, chain := ch, lst := none } : LChain) ∈ l) →
+            ∃ proto, ∀ c ∈ chains (effectiveMode ps root w d) proto, c ∈ cs := by
+          intro proto hall
+          refine ⟨proto, fun c hc => ?_⟩
+          apply (hcs _).mpr
+          apply (mem_applicableIn (l := listenerFor l d)).mpr
+          rw [if_neg hsp]
+          exact ⟨_, (hviMem _).mpr ⟨hall c hc, rfl⟩, rfl, rfl⟩
+        rcases (hmem lc).mp hlcl.1 with ⟨sp, hspm, hc⟩ | hc | ⟨e, he, hneed, hc⟩
+        · have h := entryChains_dst_lst hc
+          have htd : sp.target = d := (dstOf_eq_some hd).mp (h.1 ▸ hlc.2)
+          have hl : sp.listener = none := h.2 ▸ hlcl.2
+          apply fin sp.proto
+          intro ch hch
+          have := hcellIn sp hspm htd ch hch
+          rw [hl] at this; exact this
+        · have h0 : (0 : Nat) = d := (dstOf_eq_some hd).mp ((mem_chainsFor.mp hc).1 ▸ hlc.2)
+          omega
+        · have hm := mem_chainsFor.mp hc
+          have hed : e.1 = d := (dstOf_eq_some hd).mp (hm.1 ▸ hlc.2)
+          apply fin .auto
+          intro ch hch
+          apply (hmem _).mpr
+          right; right
+          refine ⟨e, he, hneed, mem_chainsFor.mpr ⟨?_, rfl, ?_⟩⟩
+          · simp only [hed]; exact ((dstOf_eq_some hd).mpr rfl).symm
+          · rw [hed, hmode]; exact hch
+    -- conclude from the cell facts
+    obtain ⟨proto0, hall⟩ := hcomplete
+    refine ⟨?_, ?_, ?_, ?_⟩
+    · constructor
+      · intro h
+        obtain ⟨c, hc, hp⟩ := List.any_eq_true.mp h
+        obtain ⟨proto, hcm⟩ := hsound c hc
+        exact (chains_enforce _ hne proto).1.mp (List.any_eq_true.mpr ⟨c, hcm, hp⟩)
+      · intro h
+        obtain ⟨c, hc, hp⟩ := List.any_eq_true.mp ((chains_enforce _ hne proto0).1.mpr h)
+        exact List.any_eq_true.mpr ⟨c, hall c hc, hp⟩
+    · constructor
+      · intro h
+        obtain ⟨c, hc, hp⟩ := List.any_eq_true.mp h
+        obtain ⟨proto, hcm⟩ := hsound c hc
+        exact (chains_enforce _ hne proto).2.1.mp (List.any_eq_true.mpr ⟨c, hcm, hp⟩)
+      · intro h
+        obtain ⟨c, hc, hp⟩ := List.any_eq_true.mp ((chains_enforce _ hne proto0).2.1.mpr h)
+        exact List.any_eq_true.mpr ⟨c, hall c hc, hp⟩
+    · rw [List.any_eq_false]
+      intro c hc
       obtain ⟨proto, hcm⟩ := hsound c hc
-      exact (chains_enforce _ hne proto).1.mp (List.any_eq_true.mpr ⟨c, hcm, hp⟩)
-    · intro h
-      obtain ⟨c, hc, hp⟩ := List.any_eq_true.mp ((chains_enforce _ hne proto0).1.mpr h)
-      exact List.any_eq_true.mpr ⟨c, hall c hc, hp⟩
-  · constructor
-    · intro h
-      obtain ⟨c, hc, hp⟩ := List.any_eq_true.mp h
+      have := (chains_enforce _ hne proto).2.2.1
+      rw [List.any_eq_false] at this
+      exact this c hcm
+    · intro hstrict c hc
       obtain ⟨proto, hcm⟩ := hsound c hc
-      exact (chains_enforce _ hne proto).2.1.mp (List.any_eq_true.mpr ⟨c, hcm, hp⟩)
-    · intro h
-      obtain ⟨c, hc, hp⟩ := List.any_eq_true.mp ((chains_enforce _ hne proto0).2.1.mpr h)
-      exact List.any_eq_true.mpr ⟨c, hall c hc, hp⟩
-  · rw [List.any_eq_false]
-    intro c hc
-    obtain ⟨proto, hcm⟩ := hsound c hc
-    have := (chains_enforce _ hne proto).2.2.1
-    rw [List.any_eq_false] at this
-    exact this c hcm
-  · intro hstrict c hc
-    obtain ⟨proto, hcm⟩ := hsound c hc
-    exact (chains_enforce _ hne proto).2.2.2.2 hstrict c hcm
+      exact (chains_enforce _ hne proto).2.2.2.2 hstrict c hcm
+  · -- a custom listener bound to `d`
+    have hlf : listenerFor l d = own := by
+      simp only [listenerFor]; rw [if_neg hownE]
+    have hownMem : ∀ lc, lc ∈ own ↔ lc ∈ l ∧ lc.lst = some d := by
+      intro lc; simp [own, List.mem_filter]
+    have hnil : own ≠ [] := by intro h; exact hownE (by simp [h])
+    obtain ⟨lc0, hlc0⟩ := List.exists_mem_of_ne_nil _ hnil
+    have hlc0' := (hownMem lc0).mp hlc0
+    have hspne : ¬ ((listenerFor l d).filter (fun c => c.dst == some d)).isEmpty = true := by
+      intro h
+      have hspec : ∀ x ∈ listenerFor l d, ¬ (x.dst == some d) = true :=
+        List.filter_eq_nil_iff.mp (List.isEmpty_iff.mp h)
+      exact hspec lc0 (by rw [hlf]; exact hlc0) (by simp [(hown lc0 hlc0'.1 hlc0'.2).1])
+    have hsound : ∀ c ∈ cs, ∃ proto, c ∈ chains (effectiveMode ps root w d) proto := by
+      intro c hc
+      have := mem_applicableIn.mp ((hcs c).mp hc)
+      rw [if_neg hspne] at this
+      obtain ⟨lc, hlc, hdst, rfl⟩ := this
+      rw [hlf] at hlc
+      exact hspecific lc ((hownMem lc).mp hlc).1 hdst
+    have hcomplete : ∃ proto, ∀ c ∈ chains (effectiveMode ps root w d) proto, c ∈ cs := by
+      obtain ⟨_, sp, hspm, htd, hb, _⟩ := hown lc0 hlc0'.1 hlc0'.2
+      refine ⟨sp.proto, fun c hc => ?_⟩
+      apply (hcs _).mpr
+      apply (mem_applicableIn (l := listenerFor l d)).mpr
+      rw [if_neg hspne]
+      have hx := hcellIn sp hspm htd c hc
+      have hl : sp.listener = some d := by simp [SvcPort.listener, hb, htd]
+      rw [hl] at hx
+      exact ⟨_, by rw [hlf]; exact (hownMem _).mpr ⟨hx, rfl⟩, rfl, rfl⟩
+    obtain ⟨proto0, hall⟩ := hcomplete
+    refine ⟨?_, ?_, ?_, ?_⟩
+    · constructor
+      · intro h
+        obtain ⟨c, hc, hp⟩ := List.any_eq_true.mp h
+        obtain ⟨proto, hcm⟩ := hsound c hc
+        exact (chains_enforce _ hne proto).1.mp (List.any_eq_true.mpr ⟨c, hcm, hp⟩)
+      · intro h
+        obtain ⟨c, hc, hp⟩ := List.any_eq_true.mp ((chains_enforce _ hne proto0).1.mpr h)
+        exact List.any_eq_true.mpr ⟨c, hall c hc, hp⟩
+    · constructor
+      · intro h
+        obtain ⟨c, hc, hp⟩ := List.any_eq_true.mp h
+        obtain ⟨proto, hcm⟩ := hsound c hc
+        exact (chains_enforce _ hne proto).2.1.mp (List.any_eq_true.mpr ⟨c, hcm, hp⟩)
+      · intro h
+        obtain ⟨c, hc, hp⟩ := List.any_eq_true.mp ((chains_enforce _ hne proto0).2.1.mpr h)
+        exact List.any_eq_true.mpr ⟨c, hall c hc, hp⟩
+    · rw [List.any_eq_false]
+      intro c hc
+      obtain ⟨proto, hcm⟩ := hsound c hc
+      have := (chains_enforce _ hne proto).2.2.1
+      rw [List.any_eq_false] at this
+      exact this c hcm
+    · intro hstrict c hc
+      obtain ⟨proto, hcm⟩ := hsound c hc
+      exact (chains_enforce _ hne proto).2.2.2.2 hstrict c hcm
 
 /-- **User TLS on a Sidecar ingress listener is the only one-way TLS termination, and only under
     DISABLE.**  Every chain of the listener that terminates TLS without requiring a client certificate
     belongs to a chain config with user TLS settings whose port's effective mode is DISABLE. -/
 theorem inbound_user_tls_only_under_disable {ps : List PA} (hu : UniqueKeys ps) (root : String)
-    (w : Workload) (hs : w.svcNs = []) (svcPorts : List SvcPort) (c : LChain)
-    (hc : c ∈ inboundChains root ps w svcPorts) (h1 : c.chain.terminatesOneWayTLS = true) :
+    (w : Workload) (hs : w.svcNs = []) (svcPorts : List SvcPort) (declared : List Nat) (c : LChain)
+    (hc : c ∈ inboundChains root ps w svcPorts declared) (h1 : c.chain.terminatesOneWayTLS = true) :
     ∃ sp ∈ svcPorts, sp.userTLS = true ∧ c.dst = dstOf sp.target ∧
       effectiveMode ps root w sp.target = .disable := by
   have hmode : ∀ port, (compose root ((initAuthn root ps).configsFor w)).modeForPort port =
@@ -313,7 +439,7 @@ theorem inbound_user_tls_only_under_disable {ps : List PA} (hu : UniqueKeys ps) 
   have hreg : ∀ (port : Nat) (proto : LProto),
       c ∈ chainsFor (compose root ((initAuthn root ps).configsFor w)) port proto → False := by
     intro port proto hin
-    have hm := (mem_chainsFor.mp hin).2
+    have hm := (mem_chainsFor.mp hin).2.2
     have := inbound_never_one_way_tls _ proto c.chain hm
     rw [h1] at this; cases this
   rcases mem_inboundChains_iff.mp hc with ⟨sp, hsp, hin⟩ | hin | ⟨e, _, _, hin⟩
@@ -324,25 +450,95 @@ theorem inbound_user_tls_only_under_disable {ps : List PA} (hu : UniqueKeys ps) 
       simp only [List.mem_singleton] at hin
       refine ⟨sp, hsp, hcond.1, by rw [hin], ?_⟩
       rw [← hmode]; exact hcond.2
-    · exact absurd (hreg _ _ hin) id
+    · simp only [List.mem_map] at hin
+      obtain ⟨ch, hch, rfl⟩ := hin
+      have := inbound_never_one_way_tls _ sp.proto ch hch
+      simp only at h1
+      rw [h1] at this; cases this
   · exact absurd (hreg _ _ hin) id
   · exact absurd (hreg _ _ hin) id
+
+/-! ## HBONE -/
+
+/-- **hbone_terminate_always_mtls.**  Whatever the PeerAuthentication policies, a sidecar's HBONE
+    `connect_terminate` listener requires a client certificate (socket class 2), `Builder.ForHBONE` is
+    STRICT, and no chain of the internal listener behind the tunnel carries a transport socket: over
+    HBONE the peer is always authenticated, also towards ports whose mode is DISABLE.  In the model this
+    holds by construction; its content is the `inbound` stream, which observes the three facts on the real
+    listeners and on the real `ForHBONE`. -/
+theorem hbone_terminate_always_mtls (root : String) (ps : List PA) (w : Workload) (svcPorts : List SvcPort) :
+    hboneTerminateSock = .mtls ∧
+    forHBONEMode (compose root ((initAuthn root ps).configsFor w)) = .strict ∧
+    sockFor (forHBONEMode (compose root ((initAuthn root ps).configsFor w))) true = .mtls ∧
+    ∀ c ∈ hboneInnerChains svcPorts, c.chain.sock = .none := by
+  refine ⟨rfl, rfl, rfl, ?_⟩
+  intro c hc
+  unfold hboneInnerChains at hc
+  simp only [List.mem_append, List.mem_flatMap, List.mem_map] at hc
+  rcases hc with ⟨sp, _, ch, hch, rfl⟩ | ⟨ch, hch, rfl⟩
+  · have := (inbound_enforces_disable sp.proto ch hch).1
+    simpa [Chain.terminatesTLS] using this
+  · have := (inbound_enforces_disable .auto ch hch).1
+    simpa [Chain.terminatesTLS] using this
 
 /-! ## Non-vacuity -/
 
-/-- The fixture of the `inbound` stream: a service whose port (81) differs from its target port (8081). -/
-def exSvcPorts : List SvcPort :=
-  [ { port := 80, target := 80, proto := .http }, { port := 8080, target := 8080, proto := .tcp },
-    { port := 9090, target := 9090, proto := .auto }, { port := 81, target := 8081, proto := .http } ]
+/-- `chainConfigs` / `declaredPorts` meet the hypothesis `DeclaredHaveConfigs` ... -/
+theorem firstPerTargetAux_covers (seen : List Nat) (l : List SvcPort) (sp : SvcPort) (h : sp ∈ l)
+    (hs : sp.target ∉ seen) : ∃ sp' ∈ firstPerTargetAux seen l, sp'.target = sp.target := by
+  induction l generalizing seen with
+  | nil => cases h
+  | cons a t ih =>
+    unfold firstPerTargetAux
+    by_cases hc : seen.contains a.target = true
+    · simp only [hc, if_true]
+      rcases List.mem_cons.mp h with rfl | ht
+      · exact absurd (by simpa using hc) hs
+      · exact ih seen ht hs
+    · simp only [hc, Bool.false_eq_true, if_false]
+      rcases List.mem_cons.mp h with rfl | ht
+      · exact ⟨sp, List.mem_cons_self, rfl⟩
+      · by_cases hat : a.target = sp.target
+        · exact ⟨a, List.mem_cons_self, hat⟩
+        · obtain ⟨sp', hm, he⟩ := ih (a.target :: seen) ht (by
+            simp only [List.mem_cons, not_or]; exact ⟨fun e => hat e.symm, hs⟩)
+          exact ⟨sp', List.mem_cons_of_mem _ hm, he⟩
 
-example : NoPortZero exPolicies ∧ UniqueKeys exPolicies ∧ NoUserTLSFor exSvcPorts 80 := by decide
+/-- ... whatever the services, the ingress listeners and the merge flag. -/
+theorem declared_have_configs (services ingress : List SvcPort) (merge : Bool) :
+    DeclaredHaveConfigs (chainConfigs services ingress merge) (declaredPorts services ingress) := by
+  intro p hp
+  unfold declaredPorts at hp
+  unfold chainConfigs
+  by_cases hi : ingress.isEmpty = true
+  · simp only [hi, if_true, List.mem_map] at hp ⊢
+    obtain ⟨sp, hsp, rfl⟩ := hp
+    exact firstPerTargetAux_covers [] services sp hsp (by simp)
+  · simp only [hi, Bool.false_eq_true, if_false, List.mem_map] at hp ⊢
+    obtain ⟨sp, hsp, rfl⟩ := hp
+    cases merge
+    · exact firstPerTargetAux_covers [] ingress sp hsp (by simp)
+    · exact firstPerTargetAux_covers [] _ sp (List.mem_append_right _ hsp) (by simp)
+
+/-- The fixture of the `inbound` stream: a service whose port (81) differs from its target port (8081),
+    and a second service in conflict on target port 8080. -/
+def exServices : List SvcPort :=
+  [ { port := 80, target := 80, proto := .http }, { port := 8080, target := 8080, proto := .tcp },
+    { port := 9090, target := 9090, proto := .auto }, { port := 81, target := 8081, proto := .http },
+    { port := 8082, target := 8080, proto := .http } ]
+
+def exSvcPorts : List SvcPort := chainConfigs exServices [] false
+def exDeclared : List Nat := declaredPorts exServices []
+
+example : NoPortZero exPolicies ∧ UniqueKeys exPolicies ∧ NoUserTLSFor exSvcPorts 80 ∧
+    DeclaredHaveConfigs exSvcPorts exDeclared := by decide
 /-- `exPolicies`: port 80 of `exWorkload` is DISABLE (port-level entry of wl1): plaintext admitted, no mTLS. -/
-example : (applicable (inboundChains "istio-system" exPolicies exWorkload exSvcPorts) 80).any Chain.acceptsPlaintext = true :=
-  (inbound_listener_enforces (by decide) (by decide) "istio-system" exWorkload rfl exSvcPorts 80 (by decide) (by decide)).1.mpr
-    (by decide)
+example : (applicable (inboundChains "istio-system" exPolicies exWorkload exSvcPorts exDeclared) 80).any Chain.acceptsPlaintext = true :=
+  (inbound_listener_enforces (by decide) (by decide) "istio-system" exWorkload rfl exSvcPorts exDeclared 80 (by decide)
+    (by decide) (by decide) (declared_have_configs _ _ _)).1.mpr (by decide)
 /-- port 8081 (target port of service port 81, no port-level entry) is STRICT: every selected chain terminates mTLS. -/
-example : ∀ c ∈ applicable (inboundChains "istio-system" exPolicies exWorkload exSvcPorts) 8081, c.terminatesMTLS = true :=
-  (inbound_listener_enforces (by decide) (by decide) "istio-system" exWorkload rfl exSvcPorts 8081 (by decide) (by decide)).2.2.2
-    (by decide)
+example : ∀ c ∈ applicable (inboundChains "istio-system" exPolicies exWorkload exSvcPorts exDeclared) 8081, c.terminatesMTLS = true :=
+  (inbound_listener_enforces (by decide) (by decide) "istio-system" exWorkload rfl exSvcPorts exDeclared 8081 (by decide)
+    (by decide) (by decide) (declared_have_configs _ _ _)).2.2.2 (by decide)
 
 end IstioModel.C10
